@@ -205,6 +205,13 @@ def run_scenario(sc, rng, raising=None, extra_handlers=None):
             pass
         return 0x0000
 
+    thread_errors = []
+    old_hook = threading.excepthook
+
+    def hook(args):
+        thread_errors.append((type(args.thread).__name__, args.exc_type.__name__ + ": " + str(args.exc_value)))
+
+    threading.excepthook = hook
     t_o = sc["timeouts"]
     srv_ae = AE(ae_title="ACCEPTOR")
     srv_ae.add_supported_context(Verification)
@@ -260,6 +267,8 @@ def run_scenario(sc, rng, raising=None, extra_handlers=None):
         th.join(limit)
         leaks = wait_quiet(before, limit)
         res["wall"] = time.monotonic() - t0
+        res["limit"] = limit
+        res["thread_errors"] = list(thread_errors)
         res["leaks"] = leaks
         res["echo"] = echo_status
         res["req"] = {"outcome": outcome(assoc), "hist": rec_req.history(assoc), "sock_closed": sock_closed(assoc)}
@@ -276,6 +285,7 @@ def run_scenario(sc, rng, raising=None, extra_handlers=None):
                 "sock_closed": sock_closed(a) if a is not None else True,
             }
     finally:
+        threading.excepthook = old_hook
         if shaker is not None:
             Shaker.uninstall()
         try:
@@ -283,3 +293,47 @@ def run_scenario(sc, rng, raising=None, extra_handlers=None):
         except Exception:
             pass
     return res
+
+
+# --------------------------------------------------------------------------
+# parallel execution of scenarios (one process per worker: the hook callback is process-global)
+# --------------------------------------------------------------------------
+def _worker(args):
+    import random
+
+    sc, seed, raising_spec = args
+    rng = random.Random(seed)
+    raising = None
+    if raising_spec is not None:
+        raising = make_raising(raising_spec)
+    try:
+        return run_scenario(sc, rng, raising=raising)
+    except Exception as exc:  # harness problem: report, never hide
+        import traceback
+
+        return {"script": sc, "harness_error": traceback.format_exc()[-1500:]}
+
+
+def make_raising(spec):
+    """spec = dict(seed=int, p=float, callable_kind='function'|'partial') -> predicate(assoc, evname, n)"""
+    seed, p = spec["seed"], spec["p"]
+
+    def pred(assoc, name, n):
+        h = hash((seed, name, n)) & 0xFFFF
+        return h / 65536.0 < p
+
+    return pred
+
+
+def run_many(scenarios, seed, workers=8, raising_specs=None):
+    """run scenarios in parallel; deterministic per-scenario seeds derived from `seed`"""
+    import concurrent.futures as cf
+    import multiprocessing as mp
+
+    jobs = [
+        (sc, (seed * 1000003 + i) & 0x7FFFFFFF, None if raising_specs is None else raising_specs[i])
+        for i, sc in enumerate(scenarios)
+    ]
+    ctx = mp.get_context("fork")
+    with cf.ProcessPoolExecutor(max_workers=workers, mp_context=ctx) as ex:
+        return list(ex.map(_worker, jobs, chunksize=1))
